@@ -307,7 +307,7 @@ def enumerate_cases(tier: str, seed: int) -> list[dict[str, Any]]:
         for p in progs:
             cases.append({"key": f"ok:{p}#{r}", "prog": p, "plan": {"kind": "none"}, "cost": 1.0})
     for r in range(3 if tier == "quick" else 10):
-        for variant in ("plain", "nested", "called_before"):
+        for variant in ("plain", "nested", "called_before", "in_function_body"):
             cases.append({"key": f"fresh_jit:{variant}#{r}", "prog": None, "fresh_jit": variant, "plan": {"kind": "none"}, "cost": 1.0})
     for where in ("top", "loop_body", "cond_branch", "function_body", "nested_function_body"):
         for dp in (False, True):
@@ -409,7 +409,15 @@ def run_case(case: dict[str, Any], tier: str, seed: int) -> dict[str, Any]:
 
         c = float(_S["calls"] % 7 + 2)
         inner = jax.jit(lambda v: jnp.reshape(v, (-1,)) * c)
-        if case["fresh_jit"] == "nested":
+        if case["fresh_jit"] == "in_function_body":
+            from vlib import fnmods
+
+            helper = jax.jit(lambda v: jnp.tanh(v) * c + jnp.sum(v))
+            fnmods.c13_jit_helper = helper
+            fresh = helper  # the jit callable that is called eagerly afterwards
+            inner = None
+            expect = lambda x: np.tanh(x) * c + x.sum()  # noqa: E731
+        elif case["fresh_jit"] == "nested":
             fresh = jax.jit(lambda x: inner(x).sum() + jnp.tanh(x) + jnp.take(x, 0, axis=1)[:, None])
             expect = lambda x: (x.reshape(-1) * c).sum() + np.tanh(x) + x[:, :1]  # noqa: E731
         else:
@@ -419,6 +427,8 @@ def run_case(case: dict[str, Any], tier: str, seed: int) -> dict[str, Any]:
         if case["fresh_jit"] == "called_before":
             fresh(xx)
         fn, specs, kw = fresh, [(2, 3)], {}
+        if case["fresh_jit"] == "in_function_body":
+            fn = fnmods.c13_outer_with_jit_in_body
     elif case.get("raiser"):
         fn = _trace_raisers()[case["raiser"]]
         specs = [(2, 3)]
@@ -485,7 +495,7 @@ def run_case(case: dict[str, Any], tier: str, seed: int) -> dict[str, Any]:
     _monitors(case["key"], case.get("prog"), rec)
     if reached:
         stage = plan["kind"] if plan["kind"] != "none" else ("trace_raise:" + case["raiser"] if case.get("raiser") else "ok")
-        tag = f"{stage}:{plan.get('k', '')}:{plan.get('when', '')}:{case.get('prog') or case.get('raiser')}:{case['key'].split('#')[-1] if '#' in case['key'] else ''}:{case.get('dp', '')}"
+        tag = f"{stage}:{plan.get('k', '')}:{plan.get('when', '')}:{case.get('prog') or case.get('raiser') or case.get('fresh_jit')}:{case['key'].split('#')[-1] if '#' in case['key'] else ''}:{case.get('dp', '')}"
         rec["nontrivial"].append(tag)
     rec["status"] = "violated" if rec["violations"] else "held"
     rec["sample"] = {"call": case["key"], "position_in_process_history": _S["calls"], "raised": (type(raised).__name__ + ": " + str(raised)[:80]) if raised else None, "fault_sites_reached": counter["n"]}
